@@ -193,7 +193,8 @@ MANIFEST = dict(
              '(owner get_task / spawn incl. pool compaction vs thieves steal_task, isolation tags, holes), (b) affinity mail (r1::spawn with a slot id, '
              'task_proxy::extract_task from pool side and mailbox side, mail_outbox push / pop, arena::steal_task) and (c) the outstanding-work counters '
              '(wait_context, reference_vertex, fold_tree over tree_node/wait_node) and (d) task_stream lanes (push vs pop / pop_specific: population bitmap '
-             'vs lane content, lane queue cut to a bounded queue) is decided by a SAT solver: no task is handed out twice, none is lost '
+             'vs lane content, lane queue cut to a bounded queue) is decided by a SAT solver; one sequential history (owner get_task under isolation meeting an '
+             'already emptied affinity proxy, allocator reuse, drain) is decided the same way: no task is handed out twice, none is lost '
              '(handed out + still queued == submitted), proxies / tree nodes are freed exactly once and never touched afterwards, a wait is released '
              'exactly when all the work it covers has finished, and nobody is left spinning.',
   level_note='Concrete per query: which operations each thread performs (scenario list in evidence); symbolic: schedule, isolation tags, idle flags. '
